@@ -522,8 +522,14 @@ func coversBool(p *an.Program, e an.CodecEvent, f *types.Var) bool {
 		return true
 	}
 	// the byte was chosen beforehand: a phi of constants, each arriving over an edge decided by the field
+	var chosen ssa.Value
 	if st, ok := e.Instr.(*ssa.Store); ok {
-		if ph, ok := st.Val.(*ssa.Phi); ok {
+		chosen = st.Val
+	} else if e.ByteVal != nil {
+		chosen = e.ByteVal
+	}
+	if chosen != nil {
+		if ph, ok := chosen.(*ssa.Phi); ok {
 			for i := range ph.Edges {
 				pred := ph.Block().Preds[i]
 				if mentions(fi.EdgeFacts(pred, ph.Block())) || mentions(fi.FactsAtBlock(pred).Sorted()) {
